@@ -5,7 +5,7 @@ import re
 from mc.core import UnitResult
 
 ID = "C11"
-PARTS = ['comment', 'disable', 'disable-other', 'route-cli', 'route-override', 'route-override-longer', 'route-override-parent', 'route-override-prefix', 'route-top-level']      # outcome classes every run must produce (guards against a part of the exploration silently not running)
+PARTS = ['comment', 'disable', 'disable-other', 'route-cli', 'route-override', 'route-override-longer', 'route-override-parent', 'route-override-prefix', 'route-top-level', 'hdisable', 'hcomment']      # outcome classes every run must produce (guards against a part of the exploration silently not running)
 RULE = ("state = base program (every selection of <= 2/3 diagnostic lines from a pool incl. two codes on one line, a multi-line statement, first-line and last-line errors, the marker "
         "text inside a string literal) + one event: disable any subset of the occurring codes, or insert one/two ignore comments at any line in trailing or own-line form, bare / "
         "matching code / other code, with unused_ignore and bare_ignore on or off; real: the failures of NameCheckVisitor.check(); oracle: projection model — disabling removes "
@@ -83,7 +83,7 @@ def route_programs(tier):
 def units(tier):
     n = len(base_programs(tier))
     nr = len(route_programs(tier))
-    return [("settings", tier, i, min(n, i + CH)) for i in range(0, n, CH)] + [("routes", tier, i, min(nr, i + 3)) for i in range(0, nr, 3)]
+    return [("settings", tier, i, min(n, i + CH)) for i in range(0, n, CH)] + [("routes", tier, i, min(nr, i + 2)) for i in range(0, nr, 2)] + [("harv", tier, i, i + HSTEP) for i in range(0, 920, HSTEP)]
 
 
 def _cli(args, cwd):
@@ -338,9 +338,109 @@ def _run_base(res, tier, sel, order0, only_event=None):
         res.sample({"program": src, "diagnostics": _strip_pos(D)})
 
 
+# ---- the programs of pyanalyze's own test-suite that have diagnostics (ref/harvest.py): realistic programs, many codes ----------------
+HSTEP = 40
+
+
+def _hprogs():
+    from ref.harvest import harvest
+    from props.c10_harvest import _INHERENT
+    return [(n, s, st) for n, s, st in harvest() if "static analysis" not in s and not _INHERENT.search(s)]
+
+
+def _hcheck(src, settings, extra):
+    from pa.run import check, make_checker, norm_text, test_module_factory
+    from pyanalyze.error_code import ErrorCode
+    st = {getattr(ErrorCode, k): v for k, v in (settings or {}).items()}
+    st.update({getattr(ErrorCode, k): v for k, v in extra.items()})
+    key = repr(sorted((k.name, v) for k, v in st.items()))
+    if key not in _HCK:
+        _HCK[key] = make_checker(st)
+    try:
+        fails = check(src, checker=_HCK[key], module_factory=test_module_factory())
+    except Exception as e:
+        return None
+    out = [(f["code"].name, f.get("lineno"), f.get("col_offset"), norm_text(f.get("description", ""))) for f in fails]
+    return sorted(out, key=lambda d: (d[1] or 0, d[0], d[2] or 0, d[3]))
+
+
+_HCK = {}
+
+
+def _harv(res, tier, lo, hi, only=None):
+    """only = (program name, event)"""
+    H = _hprogs()
+    for pi in range(lo, min(hi, len(H))):
+        name, src, settings = H[pi]
+        if only is not None and name != only[0]:
+            continue
+        base_extra = {"unused_ignore": False, "bare_ignore": False}
+        D = _hcheck(src, settings, base_extra)
+        res.transitions += 1
+        if not D:
+            res.outcomes["harvested:%s" % ("unloadable" if D is None else "no-diagnostics")] += 1
+            continue
+        res.states += 1
+        case0 = {"mode": "harv", "name": name, "order": 2 * 10 ** 7 + pi * 1000}
+        codes = sorted({d[0] for d in D})
+        lines = src.split("\n")
+        events = [["disable", [c]] for c in codes] + ([["disable", codes]] if len(codes) > 1 else [])
+        seen_lines = set()
+        for d in D:
+            ln = d[1]
+            if not isinstance(ln, int) or not (1 <= ln <= len(lines)) or ln in seen_lines:
+                continue
+            seen_lines.add(ln)
+            here = sorted({x[0] for x in D if x[1] == ln})
+            for c in here + [None]:
+                events.append(["comment", ln, c])
+        for ei, ev in enumerate(events):
+            if only is not None and ev != only[1]:
+                continue
+            if ev[0] == "disable":
+                S = ev[1]
+                got = _hcheck(src, settings, dict(base_extra, **{c: False for c in S}))
+                exp = [d for d in D if d[0] not in S]
+                what = "disabling %s" % S
+                sig = {"kind": "h-disable-not-projection"}
+            else:
+                _, ln, c = ev
+                text = MARK + ("[%s]" % c if c else "")
+                new = list(lines)
+                new[ln - 1] = new[ln - 1] + "  " + text
+                nsrc = "\n".join(new)
+                try:
+                    compile(nsrc, "<c11h>", "exec")
+                    import ast as _ast
+                    if _ast.dump(_ast.parse(nsrc)) != _ast.dump(_ast.parse(src)):
+                        raise SyntaxError("the comment landed inside a string literal")
+                except SyntaxError:
+                    res.outcomes["hcomment:not-a-program"] += 1
+                    continue
+                got = _hcheck(nsrc, settings, base_extra)
+                exp = [d for d in D if not (d[1] == ln and (c is None or d[0] == c))]
+                what = "trailing comment %r on line %d" % (text, ln)
+                sig = {"kind": "h-comment-not-projection", "code": "bare" if c is None else "matching"}
+            res.states += 1
+            res.transitions += 1
+            res.validated += 1
+            ok = got == exp
+            res.outcomes["h%s:%s" % (ev[0], "projection" if ok else "differs")] += 1
+            if not ok:
+                lost = sorted({d[0] for d in exp if got is None or d not in got})
+                extra = sorted({d[0] for d in (got or []) if d not in exp})
+                sig.update({"lost": ",".join(lost), "extra": ",".join(extra), "in_string": str(int(MARK in src))})
+                res.violation(sig, dict(case0, event=ev, order=case0["order"] + ei),
+                              "%s on test-suite program %s\nexpected %s\ngot      %s" % (what, name, [d[:3] for d in exp], None if got is None else [d[:3] for d in got]))
+    res.sample({"harvested_range": [lo, hi]})
+
+
 def run_unit(unit):
     kind, tier, lo, hi = unit
     res = UnitResult()
+    if kind == "harv":
+        _harv(res, tier, lo, hi)
+        return res
     if kind == "routes":
         _routes(res, tier, lo, hi)
         return res
@@ -351,6 +451,11 @@ def run_unit(unit):
 
 def replay(case):
     res = UnitResult()
+    if case.get("mode") == "harv":
+        H = _hprogs()
+        i = [n for n, _, _ in H].index(case["name"])
+        _harv(res, "quick", i, i + 1, only=(case["name"], case["event"]))
+        return list(res.viol.values())
     if case.get("event") and case["event"][0] == "route":
         for tier in ("quick", "thorough"):
             rp = route_programs(tier)
